@@ -435,6 +435,15 @@ func genC12(r *Rng, tier string) []Case {
 			}
 		}
 	}
+	// two large strings decoded by ONE decoder: the first value must still be what it was after the second call
+	for _, major := range []byte{0x40, 0x60} {
+		for _, lens := range [][2]int{{65536, 70000}, {70000, 65536}, {65535, 65536}, {100000, 100000}} {
+			a, b := bytes.Repeat([]byte{'a'}, lens[0]), bytes.Repeat([]byte{'b'}, lens[1])
+			in := append(append(canonHead(major, uint64(len(a))), a...), append(canonHead(major, uint64(len(b))), b...)...)
+			k := map[byte]string{0x40: "bytes", 0x60: "text"}[major]
+			dec([]string{k, k}, in)
+		}
+	}
 	// long text whose multi-byte characters straddle the 4 KiB / 32 KiB / 64 KiB marks a chunked validator would cut at
 	for _, mark := range []int{4096, 32768, 65536} {
 		for _, ch := range []string{"\u00e9", "\u20ac", "\U0001F600"} {
